@@ -8,6 +8,8 @@ import (
 	"context"
 	"errors"
 	"fmt"
+	"google.golang.org/grpc/codes"
+	"google.golang.org/grpc/status"
 	"math"
 	"runtime"
 	"strings"
@@ -68,7 +70,9 @@ var Prop = &engine.Prop{
 // ---------------------------------------------------------------- store seam
 
 var errNotFound = errors.New("store: not found")
-var errDup = errors.New("store: duplicate")
+
+// a duplicate is reported the way a gRPC-backed store does it
+var errDup = status.Error(codes.AlreadyExists, "store: duplicate")
 var errInjected = errors.New("store: injected failure")
 
 type datum struct {
